@@ -129,7 +129,8 @@ PROPS = {
                     "agreement argument uses -- vote at most once per view and only in phase Prepare (on_proposal), vote only for the block the "
                     "verified justification implies (vote_for/is_implied), no commit vote after a timeout vote of the same view (start_timeout "
                     "sets phase Timeout; start_new_view requires a strictly higher view), a block is built and queued only on a valid commit "
-                    "certificate (save_block precondition; consume-stub precondition weight >= quorum), certificates adopted only if strictly "
+                    "certificate (save_block precondition; on_commit/on_timeout prove, through the vote-cache invariants commit_inv/timeout_inv, that the "
+                    "certificate they consume is valid: weight >= quorum, distinct signers, every vote individually checked), certificates adopted only if strictly "
                     "newer, nothing signed leaves before the state recording it is durable, restart restores that state; plus the composition "
                     "lemmas: two quorums share a correct validator for every faulty set of weight <= f (lemma_two_quorums_share_correct), the "
                     "one-step sub-quorum lemma (lemma_subquorum), threshold arithmetic (C07), the store never replaces an accepted number (C08). "
@@ -138,8 +139,8 @@ PROPS = {
         level_text="other: machine-checked premises + composition lemmas of the agreement argument; the global history induction (H-ind) is a "
                    "stated, unverified hypothesis. A contract can say what one call does; agreement is a whole-history property, so this is the "
                    "honest level for this technique.",
-        level_note="H-ind (history induction) unverified; vote-cache bookkeeping of on_commit/on_timeout abstracted by stubs with an assumed "
-                   "contract (certificate assembled from verified votes and compared with the quorum is valid); BLS, keccak, std containers, "
+        level_note="H-ind (history induction) unverified; A3 aggregation axioms (an aggregate built by adding individually valid signatures of "
+                   "distinct members verifies over exactly those members: built_*/tbuilt_*); BLS, keccak, std containers (nested BTreeMaps as finite maps), "
                    "EngineInterface durability trusted; A7 (certified numbers/views < 2^64-1).",
         technique="contract-based deductive verification of the premises (Verus) + ghost composition lemmas; global induction not mechanised",
         design_ref="DESIGN.md §5 C01",
@@ -160,7 +161,7 @@ PROPS = {
                    "EVERY outbound send requires it to equal the current snapshot, and backup_state is proved to hand exactly that snapshot "
                    "to set_state. Restart: StateMachine::start restores exactly the stored snapshot (incl. phase) when the epoch matches.",
         level_note="Not decided: durability/atomicity of EngineInterface::set_state itself (A5) and a crash INSIDE it; the wire encoding of the "
-                   "stored state (C09). One task per replica (A4). The proposal-cache statements and the vote caches are abstracted.",
+                   "stored state (C09). One task per replica (A4). The proposal-cache statements are abstracted (not voting state); the vote caches are verified (invariants commit_inv/timeout_inv).",
         technique="contract-based deductive verification (Verus on extracted real handlers; ghost persist-before-send monitor at every send site)",
         design_ref="DESIGN.md §5 C03",
         assumptions=[],
@@ -177,7 +178,9 @@ PROPS = {
                    "(invariant certs_valid); new-view / timeout messages emitted equal new_view_msg()/timeout_msg() of the final state; "
                    "(spec conformance) Ok <=> accept predicates transcribed from spec/informal-spec/replica.rs for on_new_view (iff up to "
                    "internal errors) and => for on_proposal/on_commit/on_timeout; proposer attaches a payload iff no re-proposal is forced.",
-        level_note="The duplicate-signer rule and QC assembly in on_commit/on_timeout are inside abstracted regions (only their use is checked). "
+        level_note="The duplicate-signer rule and QC assembly in on_commit/on_timeout are verified through cache templates (nested BTreeMap entry/retain/"
+                   "remove as finite-map operations, A1) and the invariants commit_inv/timeout_inv; the consumed certificate is proved valid using the A3 "
+                   "aggregation axioms. on_proposal/on_new_view additionally ensure that the justification's certificates are recorded (justification_recorded). "
                    "Timer handling and metrics are dropped. Accept predicates are ~40 lines of spec fn reviewed against the informal spec.",
         technique="contract-based deductive verification (Verus on extracted real handlers against spec functions written from the informal spec)",
         design_ref="DESIGN.md §5 C05",
@@ -207,7 +210,7 @@ PROPS = {
     "C16": dict(
         units=["replica", "prune"],
         level="proof",
-        level_text="Channel half, unbounded. Deductive proof (Verus) over the real text of bft::inbound_selection_function, "
+        level_text="Channel half and vote-cache half, unbounded. Deductive proof (Verus) over the real text of bft::inbound_selection_function, "
                    "inbound_filter_predicate, ConsensusMsg/ChonkyMsg::view_number (unit replica) and of prunable_mpsc::Sender::send with its "
                    "two closures lifted mechanically (unit prune; the retain closure's captured flag becomes an explicit &mut parameter): "
                    "messages of different senders or kinds never displace each other; of two messages of one sender and kind exactly the one "
@@ -215,8 +218,13 @@ PROPS = {
                    "followed by the new message unless a pending one dominates it; lemma_prune_step: with a selection function satisfying "
                    "the proved contract, a queue holding at most one message per (sender, kind) still does after any send, a message is "
                    "dropped only if a same-class message with a higher (new dropped: equal or higher) view is present, order is preserved; a "
-                   "message is filtered only if its signature is invalid. For queues of any length.",
-        level_note="NOT decided: the replica-side vote caches (abstracted regions of on_commit/on_timeout), interleavings of concurrent "
+                   "message is filtered only if its signature is invalid. For queues of any length. Vote caches (unit replica, real text of on_commit/"
+                   "on_timeout): invariants commit_inv/timeout_inv hold initially (StateMachine::start) and are preserved by every handler: a validator "
+                   "is counted in a cached certificate of view v only if its recorded latest view is >= v, a message whose view is not above the "
+                   "sender's recorded view is rejected (DuplicateSigner), so each validator's weight counts once per view; certificates are cached "
+                   "only for views that are the recorded latest view of some validator, so at most |committee| views are cached however many "
+                   "future-view messages arrive.",
+        level_note="NOT decided: interleavings of concurrent "
                    "senders (send_modify runs the closure under the watch lock, A4), Receiver::recv (pops the front; inspected). "
                    "VecDeque::retain's documented semantics is a template (A1). ConsensusMsg::label() is taken to identify the message kind.",
         technique="contract-based deductive verification (Verus on extracted real functions and mechanically lifted closures + inductive lemma)",
@@ -285,7 +293,8 @@ PROPS = {
         level_text="For an EXPLICIT LIST of entry points, panic-freedom for every input as Verus obligations on the real text (arithmetic "
                    "overflow, division, index / slice range, unwrap / expect, unreachable!, assert!/debug_assert! as proof obligations), with no "
                    "precondition beyond the type invariant: mux::process_inbound_frames + header.rs (all 2^16 headers, all lengths), "
-                   "ReadStream::read_exact (given what the dispatcher delivers), noise Stream::handshake, poll_read_frame, poll_read_payload, "
+                   "ReadStream::read_exact (given what the dispatcher delivers), frame::mux_recv_proto / recv_proto (size checked against the limit before any "
+                   "allocation; prost decode itself external), noise Stream::handshake, poll_read_frame, poll_read_payload, "
                    "poll_read and the write path, bytes::Buffer; CommitQC/TimeoutQC/ReplicaTimeout/LeaderProposal/ReplicaNewView/FinalBlock "
                    "verify + add (incl. the assert_eq! in Signers::weight), get_implied_block/high_vote/high_qc under verify()'s postcondition; "
                    "ViewNumber::next, View::next_view, ProposalJustification::view, ChonkyMsg/ConsensusMsg::view_number, the selection function "
@@ -293,7 +302,7 @@ PROPS = {
                    "the size permits are held. Thorough tier: Kani (complete, loop-free) on the real protobuf crate: Duration/Timestamp "
                    "decoding is total, Duration and SocketAddr round-trip.",
         level_note="Not covered, and said so: prost decoding, quick_protobuf in canonical_raw, snow and tokio internals, the RPC service loop, "
-                   "frame::recv_proto/mux_recv_proto, preface, the abstracted vote-cache regions of on_commit/on_timeout, GenesisRaw::read "
+                   "preface, GenesisRaw::read "
                    "(fixed F5, straight-line, not under contract). 'Never buffers more than its limits' is the permit accounting of C14 only.",
         technique="contract-based deductive verification (Verus panic-freedom obligations on extracted real functions) + Kani complete harnesses on real leaf decoders",
         design_ref="DESIGN.md §5 C10",
